@@ -1,5 +1,6 @@
 import IceProofs.Sys2C01Main
 import IceProofs.Sys2C01LiveNoise
+import IceProofs.Sys2C01LiveWide
 /-!
 # C01 — two agents converge on the same, working candidate pair (SAFETY part)
 
@@ -16,9 +17,11 @@ the argument: a success response validates a pair only through the transaction i
 request, and transaction ids of the two agents are disjoint by the tag (modelling assumption for
 "96-bit random ids never collide").
 
-Liveness: `C01_converges` (every fair schedule) is NOT proved; proved are the single-agent progress lemmas
-(`C01_progress_*`) and convergence along the canonical fair rounds from every reachable `ReadyD` state, with an
-explicit round bound (`C01_converges_round_partial`), see the last section and notes/C01-live.md.  The mirror theorem
+Liveness: `C01_converges` (every fair schedule, every start state) is NOT proved; proved are the single-agent progress
+lemmas (`C01_progress_*`), convergence along the canonical fair rounds from every reachable `ReadyD` state, with an
+explicit round bound (`C01_converges_round_partial`), and convergence on EVERY loss-free suffix with bounded latency
+from every reachable `ReadyF` state, with an explicit time bound (`C01_converges_fair_partial`), see the last section
+and notes/C01-live.md.  The mirror theorem
 only in the partial form `C01_mirror_partial` (one local address per agent).
 -/
 namespace IceProps.C01
@@ -326,10 +329,14 @@ order; zero latency, no loss, no duplication) — from EVERY state reachable by 
 reordering, restarts, … included) that satisfies the decidable start condition `ReadyD`, for ALL topologies (any
 number of candidates, NAT, one-way links), within an explicit number of rounds.  (3) the same with ARBITRARY extra deliveries and duplications (any datagram in
 flight, any order, any number) inserted before every round (`C01_converges_noisy_rounds_partial`; the stability lemmas
-`Ob.keep`, `Ch1.keep`, `DP.keep`, `LinkedJ.keep`, `SysOK.deliver` hold for every delivery / duplication).  MISSING for
-the full statement: extra events INSIDE a round (between the tick and the waves), extra clock advances, an abstract
-fairness predicate on arbitrary index-based schedules ("every datagram in flight is delivered within the transaction
-timeout"), and the start states excluded by `ReadyD` (see notes/C01-live.md). -/
+`Ob.keep`, `Ch1.keep`, `DP.keep`, `LinkedJ.keep`, `SysOK.deliver` hold for every delivery / duplication).  (4) convergence on EVERY index-based schedule that is loss-free and fair with bounded latency (`SufOK`, `FairL`:
+deliveries, duplications and clock advances in any order and number; every datagram in flight is delivered before the
+clock has moved by more than `L`, `2 L < 4 s`), from every reachable state satisfying the decidable start condition
+`ReadyF` (it contains `ReadyD` + `KnownSrc`, and admits a controlling agent that is already selected), within an
+explicit time (`C01_converges_fair_partial`).  MISSING for the full statement: clock advances that jump over a tick
+of the CONTROLLING agent (several of its ticks in one advance), peer-reflexive discovery at the controlling agent
+inside the suffix (`KnownSrc`), retransmission after the latency bound is missed, and the start states excluded by
+`ReadyF` (see notes/C01-live.md). -/
 
 open IceProofs.C01Live IceProofs.Agent in
 /-- **progress: a tick pings.**  `pingAllCandidates` at `now` emits, for every listed pair that is Waiting / In-Progress,
@@ -506,6 +513,66 @@ theorem C01_converges_noisy_rounds_partial (s0 : Sys) (pre : List SysEv) (hi : S
   rw [Sys.runs_append, ← nrounds_runs]
   exact h3 x
 
+open IceProofs.C01Live in
+/-- **C01 convergence on every fair, loss-free suffix (partial).**  Let `s` be the state reached from an initial state
+by ANY prefix `pre` (local candidate addresses survive the NAT round trip) and let `s` satisfy the decidable start
+condition `ReadyF` for the controlling agent `c`, times `T0 ≤ now ≤ H` and a latency bound `L` with `2 L` below the
+transaction timeout (4 s); the controlling agent has a Succeeded pair, a selected pair, or a pair under its request
+budget on a `Link`.  Let `suf` be ANY list of deliveries, duplications (of any datagram in flight, in any order) and
+clock advances that are monotone, stay within the horizon `H` and do not jump over the next tick of the controlling
+agent (`SufOK`: no loss, no API call; the controlled agent may run any number of ticks per advance; extra advances
+between ticks are allowed), and FAIR: whatever is in flight at some point of `suf` is delivered before the clock has
+moved by more than `L` (`FairL`; decidable form `FairLD`).  If the clock at the end of `suf` is beyond
+`fairBound = max (now + 2 s + 2 L) nomTime + 2 s + 4 L`, BOTH agents have a selected pair and are Connected at the
+end of `suf` (hence at the end of every longer such suffix). -/
+theorem C01_converges_fair_partial (s0 : Sys) (pre : List SysEv) (hi : Sys.Init s0) (hf : FreshSel s0)
+    (hs : LocalsSane s0.nat pre) (c : Bool) (T0 H L : Nat) (hr : ReadyF pre c T0 H L (Sys.runs s0 pre))
+    (hstart : HasSucc (Sys.runs s0 pre) c ∨ Sel (Sys.runs s0 pre) c ∨ BudgetPairD c (Sys.runs s0 pre))
+    (hL : 2 * L < 4000000000)
+    (suf : List SysEv) (hsuf : SufOK c H (Sys.runs s0 pre) suf) (hfair : FairL L (Sys.runs s0 pre) suf)
+    (hend : fairBound c L (Sys.runs s0 pre) < (Sys.runs s0 (pre ++ suf)).now) :
+    ∀ x, ((Sys.runs s0 (pre ++ suf)).agent x).selected.isSome = true ∧
+         ((Sys.runs s0 (pre ++ suf)).agent x).connState = .connected := by
+  obtain ⟨hfi, hlink⟩ := ready_finv hi hf hs hr
+  rw [Sys.runs_append] at hend ⊢
+  exact converge_fair hfi hsuf hfair (by unfold maxBindingRequestTimeout; exact hL) hlink
+    (hstart.imp id (Or.imp id BudgetPairD.budget)) hend
+
+open IceProofs.C01Live in
+/-- **… and the selected pairs are mirror images** when each agent has one local address (`C01_mirror_partial`; a
+loss-free suffix contains no API call, so it adds no local address). -/
+theorem C01_converges_fair_mirror_partial (s0 : Sys) (pre : List SysEv) (hi : Sys.Init s0)
+    (hs : LocalsSane s0.nat pre) (c : Bool) (T0 H L : Nat) (hr : ReadyF pre c T0 H L (Sys.runs s0 pre))
+    (suf : List SysEv) (hsuf : SufOK c H (Sys.runs s0 pre) suf)
+    (a b : Nat) (h1 : SingleAddr pre a b) (hh : NoHairpin s0.nat s0.blocked pre) :
+    ∀ pa pb la ra lb rb,
+      selectedPair (Sys.runs s0 (pre ++ suf)).a = some pa → selectedPair (Sys.runs s0 (pre ++ suf)).b = some pb →
+      (Sys.runs s0 (pre ++ suf)).a.localOf pa.l = some la → (Sys.runs s0 (pre ++ suf)).a.remoteOf pa.r = some ra →
+      (Sys.runs s0 (pre ++ suf)).b.localOf pb.l = some lb → (Sys.runs s0 (pre ++ suf)).b.remoteOf pb.r = some rb →
+      mappedL s0.nat la.addr = rb.addr ∧ mappedL s0.nat lb.addr = ra.addr := by
+  intro pa pb la ra lb rb hpa hpb hla hra hlb hrb
+  have hna : ∀ e ∈ suf, ∀ b ev, e ≠ SysEv.api b ev := fun e he => hsuf.not_api he
+  have hr7 := hr.2.2.2.2.2.2.1
+  have hfull : ∀ x, ((Sys.runs s0 pre).agent x).cfg.lite = false := fun x => (hr7 x).1
+  obtain ⟨LA, LB, hinv0⟩ := reach_inv hi hs (pre := pre) (fun e he => he)
+  have hs' : LocalsSane s0.nat (pre ++ suf) := by
+    unfold LocalsSane; rw [localAddrs_noApi pre _ hna]; exact hs
+  obtain ⟨LA', LB', hinv1⟩ := reach_inv hi hs' (pre := pre ++ suf) (fun e he => he)
+  have hl0 := fun x => hinv0.lite_eq x
+  have hl1 := fun x => hinv1.lite_eq x
+  have hfa : (Sys.runs s0 (pre ++ suf)).a.cfg.lite = false := by
+    have e1 := hl1 false; have e0 := hl0 false; have f := hfull false
+    simp only [Sys.agent, Bool.false_eq_true, if_false] at e1 e0 f
+    rw [e1, ← e0]; exact f
+  have hfb : (Sys.runs s0 (pre ++ suf)).b.cfg.lite = false := by
+    have e1 := hl1 true; have e0 := hl0 true; have f := hfull true
+    simp only [Sys.agent, if_true] at e1 e0 f
+    rw [e1, ← e0]; exact f
+  exact C01_mirror_partial s0 _ hi hs' a b
+    (by unfold SingleAddr; rw [localAddrsOf_noApi false pre _ hna, localAddrsOf_noApi true pre _ hna]; exact h1)
+    (by unfold NoHairpin; rw [localAddrs_noApi pre _ hna]; exact hh)
+    hfa hfb pa pb hpa hpb la ra lb rb hla hra hlb hrb
+
 /-! ### Non-vacuity of the liveness hypotheses -/
 
 namespace LiveExample
@@ -558,5 +625,54 @@ example : (∀ k, ∀ e ∈ (fun _ : Nat => [SysEv.dup 0, .deliver 3, .dup 1]) k
   · simp only [List.mem_cons, List.mem_singleton, List.not_mem_nil, or_false] at he
     rcases he with rfl | rfl | rfl <;> rfl
   · decide
+
+namespace LiveExample
+/-- a fair suffix that is NOT a sequence of canonical rounds: a duplication, deliveries in reverse order, clock
+advances between the ticks, later plain rounds; the last advance stops short of the next tick -/
+def suf : List SysEv :=
+  [.dup 0, .deliver 10, .deliver 10, .deliver 9, .deliver 8, .deliver 8, .deliver 7, .deliver 6, .deliver 6, .deliver 5,
+   .deliver 4, .deliver 4, .deliver 3, .deliver 3, .deliver 2, .deliver 2, .deliver 1, .deliver 2, .deliver 2, .deliver 1,
+   .deliver 0, .deliver 1, .deliver 1, .deliver 0, .advance 100000000, .advance 200000000,
+   .dup 0, .deliver 2, .deliver 1, .deliver 0, .deliver 0, .advance 300000000, .advance 400000000,
+   .deliver 0, .deliver 0, .deliver 0, .deliver 0, .advance 2400000000,
+   .deliver 0, .deliver 0, .deliver 0, .deliver 0, .advance 4400000000,
+   .deliver 0, .deliver 0, .deliver 0, .deliver 0, .advance 4700000000]
+
+/-- a prefix after which the CONTROLLING agent A is already selected and B is not: all of B's first checks are lost,
+A validates three pairs, nominates 17 → 32 at its tick; B has answered the nomination and its own check on the marked
+pair is in flight -/
+def pre3 : List SysEv :=
+  [.api false (.addLocal 0 cA1), .api false (.addLocal 0 cA2), .api true (.addLocal 0 cB1), .api true (.addLocal 0 cB2),
+   .api false (.addRemote 0 cB1), .api false (.addRemote 0 cB2), .api true (.addRemote 0 cA1), .api true (.addRemote 0 cA2),
+   .api false (.start 0 true "ub" "pb"), .api true (.start 0 false "ua" "pa"),
+   .drop 4, .drop 4, .drop 4, .drop 4, .deliver 0, .deliver 0, .deliver 0, .deliver 0,
+   .drop 1, .drop 2, .drop 3, .drop 4, .deliver 0, .deliver 0, .deliver 0, .deliver 0,
+   .advance 200000000, .deliver 0, .deliver 4]
+
+def suf3 : List SysEv :=
+  [.dup 1, .deliver 5, .deliver 4, .deliver 4, .deliver 3, .deliver 3, .deliver 2, .deliver 2, .deliver 1, .deliver 1,
+   .deliver 0, .advance 300000000, .advance 400000000, .deliver 0, .deliver 0, .deliver 0, .deliver 0, .advance 2400000000,
+   .deliver 0, .deliver 0, .deliver 0, .deliver 0, .advance 4400000000, .deliver 0, .deliver 0, .deliver 0, .deliver 0,
+   .advance 4900000000]
+end LiveExample
+
+set_option maxRecDepth 100000 in
+open LiveExample IceProofs.C01Live in
+/-- the hypotheses of `C01_converges_fair_partial` hold on the state of the first example for the non-canonical fair
+suffix `suf` (latency bound 100 ms, horizon 5 s, `fairBound` = 4.6 s) … -/
+example : ReadyF pre false 0 5000000000 100000000 (Sys.runs s0 pre) ∧ BudgetPairD false (Sys.runs s0 pre)
+    ∧ SufOK false 5000000000 (Sys.runs s0 pre) suf ∧ FairLD 100000000 (Sys.runs s0 pre) suf
+    ∧ fairBound false 100000000 (Sys.runs s0 pre) < (Sys.runs s0 (pre ++ suf)).now := by
+  decide
+
+set_option maxRecDepth 100000 in
+open LiveExample IceProofs.C01Live in
+/-- … and on a state in which the controlling agent is already selected and the controlled one is not (excluded by
+`ReadyD`): `ReadyF` holds through `DPYD`. -/
+example : LocalsSane s0.nat pre3 ∧ ReadyF pre3 false 0 5000000000 100000000 (Sys.runs s0 pre3)
+    ∧ (Sys.runs s0 pre3).a.selected = some 2 ∧ (Sys.runs s0 pre3).b.selected = none ∧ HasSucc (Sys.runs s0 pre3) false
+    ∧ SufOK false 5000000000 (Sys.runs s0 pre3) suf3 ∧ FairLD 100000000 (Sys.runs s0 pre3) suf3
+    ∧ fairBound false 100000000 (Sys.runs s0 pre3) < (Sys.runs s0 (pre3 ++ suf3)).now := by
+  decide
 
 end IceProps.C01
